@@ -346,6 +346,10 @@ def read_everything(client, model, ctx, wit, who):
     return True
 
 
+import itertools
+_PROBE_TURN = itertools.count()
+
+
 def pending_frame(frames, t):
     """does a stream cut at t leave a partially delivered frame behind?"""
     pos = 0
@@ -397,7 +401,7 @@ def probe_while_pending(ctx, sim, second, pending_sock, model, wit):
             fresh.close()
 
 
-def trunc_trial(ctx, sim, second, rng, reqs, frames_of, t, chunk_mode, register_cut=None):
+def trunc_trial(ctx, sim, second, rng, reqs, frames_of, t, chunk_mode, register_cut=None, probe=True):
     """deliver Register fully (or cut at register_cut), then stream[:t] in a chunking, then EOF"""
     from vlib import refcodec as rc, arraymodel, simcheck, simdrv
     reset_tags(sim)
@@ -446,7 +450,8 @@ def trunc_trial(ctx, sim, second, rng, reqs, frames_of, t, chunk_mode, register_
         buf = b''
         # while the unfinished frame is pending (before EOF): other sessions and the listener keep working
         pending = (0 < register_cut < 28) if register_cut is not None else pending_frame(frames, t)
-        if pending:
+        # (only every second trial: the others end the stream at once, with end-of-stream already pending behind the bytes in flight)
+        if pending and probe and next(_PROBE_TURN) % 2 == 0:
             if register_cut is None:
                 # first take the replies of the wholly delivered frames, so the model and the simulator agree on what has been applied
                 want_n, pos = 0, 0
@@ -610,7 +615,7 @@ def server_level(ctx, rng):
             lcuts = [c for c in (4095, 4096, 4097, 8191, 8192, 8193, 2048, 12288, ltotal) if c <= ltotal]
             for j, t in enumerate(lcuts):
                 if j % ctx.nshards == ctx.shard % 4 or not quick:
-                    trunc_trial(ctx, sim, second, rng, long_reqs, long_frames, t, 'whole')
+                    trunc_trial(ctx, sim, second, rng, long_reqs, long_frames, t, 'whole', probe=False)
                     ctx.count('trunc:long-stream')
             ctx.sample({'truncation_stream_bytes': total, 'offsets_tried_this_shard': len(offs), 'requests': [sorted(r)[-1] for r in reqs]})
     finally:
